@@ -24,6 +24,12 @@ let string_of_n n =
       if !carry > 0 then digits := !digits @ [!carry]) bl;
     String.concat "" (List.rev_map string_of_int !digits)
 
+(* decimal string (possibly > 2^62) -> N, via the model's own N arithmetic *)
+let n_of_dec (str : string) =
+  let ten = n_of_int 10 in
+  let acc = ref N0 in
+  String.iter (fun c -> acc := N.add (N.mul !acc ten) (n_of_int (Char.code c - 48))) str; !acc
+
 let hexval c = match c with
   | '0'..'9' -> Char.code c - 48 | 'a'..'f' -> Char.code c - 87 | 'A'..'F' -> Char.code c - 55
   | _ -> failwith "bad hex"
@@ -84,7 +90,45 @@ let () =
                     c_check = not (has "nocheck");
                     c_block_max = getv "bm=" default_config.c_block_max } in
         let frame = bytes_of_hex fhex in
-        if has "hdr" then begin
+        let getstr k = List.fold_left (fun acc f ->
+            let kl = String.length k in
+            if String.length f > kl && String.sub f 0 kl = k then Some (String.sub f kl (String.length f - kl)) else acc) None fl in
+        if getstr "fhdr=" <> None then begin
+          (* unit-level header writer: fhdr=<wlog>:<cs>:<ck>:<nodid>:<ml>:<pledged>:<dictID> *)
+          (match String.split_on_char ':' (match getstr "fhdr=" with Some x -> x | None -> "") with
+           | [wl; cs; ck; nd; ml; pl; di] ->
+             let b x = x = "1" in
+             Printf.printf "%s OK %s\n" id (hex_of_bytes (enc_fheader_of (n_of_dec wl) (b cs) (b ck) (b nd) (b ml) (n_of_dec pl) (n_of_dec di)))
+           | _ -> Printf.printf "%s ERR badfhdr 0\n" id)
+        end else if getstr "lzenc=" <> None then begin
+          (* model-built frame from a parse: lzenc=<wlog>:<cs>:<ck>:<ll.ml.ofv;ll.ml.ofv;...>   dict field = literals hex *)
+          (match String.split_on_char ':' (match getstr "lzenc=" with Some x -> x | None -> "") with
+           | [wl; cs; ck; sq] ->
+             let b x = x = "1" in
+             let qs = List.filter_map (fun t -> match String.split_on_char '.' t with
+                 | [a; b'; c] -> Some { q_ll = n_of_dec a; q_ml = n_of_dec b'; q_ofv = n_of_dec c } | _ -> None)
+                 (String.split_on_char ';' sq) in
+             (match lz_frame (n_of_dec wl) (b cs) (b ck) (bytes_of_hex dhex) qs with
+              | Some ((fr, regen), true) -> Printf.printf "%s OK %s %s\n" id (hex_of_bytes regen) (hex_of_bytes fr)
+              | Some ((_, _), false) -> Printf.printf "%s ERR toolarge 0\n" id
+              | None -> Printf.printf "%s ERR noparse 0\n" id)
+           | _ -> Printf.printf "%s ERR badlzenc 0\n" id)
+        end else if has "asm" then begin
+          let dres = if dhex = "-" then Ok None
+            else if has "rawdict" then Ok (Some (raw_dict (bytes_of_hex dhex)))
+            else (match parse_dict (bytes_of_hex dhex) with Ok d -> Ok (Some d) | Err (c, s) -> Err (c, s)) in
+          (match dres with
+           | Err (c, s) -> Printf.printf "%s ERR %s %d\n" id (class_name c) (int_of_n s)
+           | Ok d ->
+             (match reassemble_check cfg d frame with
+              | Ok None ->
+                (match reencode_check cfg d frame with
+                 | Ok None -> Printf.printf "%s OK - ASM=same\n" id
+                 | Ok (Some (b, i)) -> Printf.printf "%s OK - ASM=seqdiff@block%d:%d\n" id (int_of_n b) (int_of_n i)
+                 | Err (c, s) -> Printf.printf "%s OK - ASM=seqerr:%s:%d\n" id (class_name c) (int_of_n s))
+              | Ok (Some i) -> Printf.printf "%s OK - ASM=diff@%d\n" id (int_of_n i)
+              | Err (c, s) -> Printf.printf "%s ERR %s %d\n" id (class_name c) (int_of_n s)))
+        end else if has "hdr" then begin
           (match parse_fheader cfg.c_magicless frame with
            | Ok (h, _) -> let buf = Buffer.create 64 in print_header buf h; Printf.printf "%s OK %s\n" id (Buffer.contents buf)
            | Err (c, s) -> Printf.printf "%s ERR %s %d\n" id (class_name c) (int_of_n s))
